@@ -1,5 +1,5 @@
 #!/usr/bin/env python3
-"""Adds handlers with only a subset of their callbacks set (typed and unitary) to every wrap_<pkg>. Idempotent."""
+"""(the committed typedglue.go was edited further by hand-script: explicit nil setters under mask bit 16) Adds handlers with only a subset of their callbacks set (typed and unitary) to every wrap_<pkg>. Idempotent."""
 import re
 p='/verif/harness/cmd/kverif/typedglue.go'
 s=open(p).read()
